@@ -125,20 +125,47 @@ def resolve {V : Type} (env : (String → Option V) × (String → Option V)) (b
     | some v => some v
     | none => builtins n
 
-/-! ### expression results of one action: watches / log fields / metric expressions each ask the oracle -/
+/-- name resolution for an occurrence INSIDE a nested scope of the expression (the body of a lambda, a generator
+    expression): the nested code object looks free names up in globals and builtins only — the `locals` mapping handed
+    to `eval` is not visible there (CPython; list / set / dict comprehensions are inlined since 3.12 and are not
+    nested in this sense). -/
+def resolveNested {V : Type} (env : (String → Option V) × (String → Option V)) (builtins : String → Option V)
+    (n : String) : Option V :=
+  match env.1 n with
+  | some v => some v
+  | none => builtins n
 
-/-- what is reported for one evaluated expression (a WatchResult and the variable it points to) -/
-structure ExprResult where
-  expr : String
-  failed : Bool
-  ty : String
-  value : String
+def resolveAt {V : Type} (nested : Bool) (env : (String → Option V) × (String → Option V))
+    (builtins : String → Option V) (n : String) : Option V :=
+  if nested then resolveNested env builtins n else resolve env builtins n
+
+/-- the statement's side: the names visible at the paused line — its locals, then its module's globals, then the
+    builtins — wherever in the expression the name occurs (a lambda written at that line would close over the locals) -/
+def visibleAtLine {V : Type} (f : Frame V) (builtins : String → Option V) (n : String) : Option V :=
+  match f.locals n with
+  | some v => some v
+  | none => match f.globals n with
+    | some v => some v
+    | none => builtins n
+
+/-! ### expression results of one action: watches / log fields each go through `eval_watch` -/
+
+/-- circumstances of collecting the i-th expression's value.  The expressions of one action share one variable cache
+    and one budget, so these depend on what was collected before (frame variables, earlier expressions) — they are
+    an input here, not computed. -/
+structure Collect where
+  budgetSpent : Bool
+  raises : Option String
 deriving Repr, DecidableEq
 
-def resultOf (ev : String → Outcome) (e : String) : ExprResult :=
-  let o := ev e
-  ⟨e, o.failed, o.ty, o.text⟩
+def evalFrom (source : String) (ev : String → Outcome) (col : Nat → Collect) : Nat → List String → List WatchOut
+  | _, [] => []
+  | i, e :: es => evalWatch source e (ev e) (col i).budgetSpent (col i).raises :: evalFrom source ev col (i + 1) es
 
-def evalAll (ev : String → Outcome) (es : List String) : List ExprResult := es.map (resultOf ev)
+/-- the results of the expressions `es` of one action, in order -/
+def evalAll (source : String) (ev : String → Outcome) (col : Nat → Collect) (es : List String) : List WatchOut :=
+  evalFrom source ev col 0 es
+
+def Collect.plain : Nat → Collect := fun _ => ⟨false, none⟩
 
 end ActionCtx
